@@ -67,6 +67,7 @@ type ev struct {
 	AsInit    bool
 	ProtoName string
 	PauseUs   int // > 0: the peer just waits this long (neither send nor receive)
+	Optional  bool
 }
 
 // on binds an event to a stream other than the scenario's default one.
@@ -83,6 +84,11 @@ func rq(tag int, call string) ev { return ev{Recv: tag, Call: call} }
 const anyTag = 1000
 
 func rqAny(call string) ev { return ev{Recv: anyTag, Call: call} }
+
+// rqOpt waits for a library message that may legitimately not be sent (the Done of
+// a Stop() that races with the protocol shutdown): a message with another tag is
+// left for the next event.
+func rqOpt(tag int, call string) ev { return ev{Recv: tag, Call: call, Optional: true} }
 func rp(call string, legit wire, others ...wire) ev {
 	return ev{Recv: -1, Send: legit, Others: others, Call: call}
 }
@@ -132,6 +138,24 @@ type scenario struct {
 type floodMsg struct {
 	wire
 	IdleOnly bool
+}
+
+// floodWithStop enables the histories "a client Stop() while a receive backlog
+// (flood) is pending": flood cases in scenarios that call Stop, and the flood
+// variant stop-in-progress. They are switched off because the property does not
+// hold there on the unchanged tree (see findings/C15.md, "Stop() with a receive
+// backlog wedges the muxer"): Protocol.Stop -> Muxer.UnregisterProtocol blocks on
+// the receiver's mutex, which muxer.readLoop holds while it is blocked sending
+// into that protocol's full channel.
+const floodWithStop = false
+
+func (s *scenario) callsStop() bool {
+	for _, c := range s.Calls {
+		if c.Name == "Stop" {
+			return true
+		}
+	}
+	return false
 }
 
 // floodLimits reads the pending-byte limits from the exported state map: the
@@ -198,18 +222,18 @@ func (s *scenario) nPos() int { return len(s.sends) + 1 }
 type faultKind int
 
 const (
-	fOtherAdmitted faultKind = iota // a reply of another kind that the state map admits
-	fNotAdmitted                    // a well-formed reply of a kind the state map does not admit
-	fSurplus                        // the legitimate reply followed by a surplus one
-	fTruncSeg                       // a segment whose header promises more bytes than are sent, then close
-	fClose                          // immediate close
-	fSilenceClose                   // silence, then close
-	fGarbage                        // garbage bytes
-	fHsClose                        // close right after the handshake, before any request is read
-	fMidMsgClose                    // close in the middle of a message split over several segments
-	fFlood                          // valid messages whose total size exceeds the state's pending-byte limit, then the connection ends
-	fConnError                      // the transport fails with an error other than EOF (reset on read, broken pipe on write)
-	fSilenceTimeout                 // the peer goes silent and never closes: the library's own protocol timeout ends the connection
+	fOtherAdmitted  faultKind = iota // a reply of another kind that the state map admits
+	fNotAdmitted                     // a well-formed reply of a kind the state map does not admit
+	fSurplus                         // the legitimate reply followed by a surplus one
+	fTruncSeg                        // a segment whose header promises more bytes than are sent, then close
+	fClose                           // immediate close
+	fSilenceClose                    // silence, then close
+	fGarbage                         // garbage bytes
+	fHsClose                         // close right after the handshake, before any request is read
+	fMidMsgClose                     // close in the middle of a message split over several segments
+	fFlood                           // valid messages whose total size exceeds the state's pending-byte limit, then the connection ends
+	fConnError                       // the transport fails with an error other than EOF (reset on read, broken pipe on write)
+	fSilenceTimeout                  // the peer goes silent and never closes: the library's own protocol timeout ends the connection
 	nFaultKinds
 	fNone = nFaultKinds // no fault (self-test of the legitimate scripts)
 )
@@ -254,23 +278,23 @@ func (p planSpec) plan() rawpeer.Plan {
 
 // caseSpec is one fully determined case (what rapid draws / what a replay file holds).
 type caseSpec struct {
-	Scn       string   `json:"scenario"`
-	Fault     string   `json:"fault"`
-	Pos       int      `json:"pos"`     // ordinal of the send event the fault replaces; nPos-1 = end; -1 = before anything
-	Variant   int      `json:"variant"` // which alternative message / garbage flavour
-	Cut       int      `json:"cut"`     // permille: where a message is truncated / split
-	SegMax    int      `json:"seg_max"` // peer's segment payload size for legit messages (0 = one segment)
-	LingerUs  int      `json:"linger_us"`
-	EndLocal  bool     `json:"end_local"` // true: the harness calls Close() while the peer is still open
-	CallDelay int      `json:"call_delay_us"`
-	AfterErr  bool     `json:"continue_after_error"`
+	Scn       string `json:"scenario"`
+	Fault     string `json:"fault"`
+	Pos       int    `json:"pos"`     // ordinal of the send event the fault replaces; nPos-1 = end; -1 = before anything
+	Variant   int    `json:"variant"` // which alternative message / garbage flavour
+	Cut       int    `json:"cut"`     // permille: where a message is truncated / split
+	SegMax    int    `json:"seg_max"` // peer's segment payload size for legit messages (0 = one segment)
+	LingerUs  int    `json:"linger_us"`
+	EndLocal  bool   `json:"end_local"` // true: the harness calls Close() while the peer is still open
+	CallDelay int    `json:"call_delay_us"`
+	AfterErr  bool   `json:"continue_after_error"`
 	// DoubleClose: Close() is called from two goroutines at once and once more afterwards
 	DoubleClose bool `json:"double_close,omitempty"`
 	// NoErrReader: the application does not read ErrorChan() until Close() has returned
-	NoErrReader bool `json:"no_error_reader,omitempty"`
-	Noise     []byte   `json:"noise,omitempty"`
-	PlanLib   planSpec `json:"plan_lib"`
-	PlanPeer  planSpec `json:"plan_peer"`
+	NoErrReader bool     `json:"no_error_reader,omitempty"`
+	Noise       []byte   `json:"noise,omitempty"`
+	PlanLib     planSpec `json:"plan_lib"`
+	PlanPeer    planSpec `json:"plan_peer"`
 }
 
 func (c caseSpec) String() string {
@@ -455,8 +479,9 @@ type runner struct {
 	curPID     uint16 // stream of the current event
 	curResp    bool
 	fc         *faultConn
-	connReset  bool // the transport was made to fail (the connection has ended without a peer close)
-	extra      []callRec // calls made by the harness outside the caller (Stop during a flood)
+	connReset  bool              // the transport was made to fail (the connection has ended without a peer close)
+	pushback   map[uint32][]byte // a message read ahead by an optional wait, per stream
+	extra      []callRec         // calls made by the harness outside the caller (Stop during a flood)
 	extraWG    sync.WaitGroup
 }
 
@@ -566,8 +591,34 @@ func msgTag(b []byte) int {
 }
 
 // await waits for a library message with the given tag.
-func (r *runner) await(tag int, d time.Duration) bool {
-	m, err := r.peer.NextMsg(r.curPID, !r.curResp, d)
+func (r *runner) await(tag int, d time.Duration) bool { return r.awaitOpt(tag, d, false) }
+
+func (r *runner) awaitOpt(tag int, d time.Duration, optional bool) bool {
+	sk := uint32(r.curPID) << 1
+	if !r.curResp {
+		sk |= 1
+	}
+	var m []byte
+	var err error
+	if pb, ok := r.pushback[sk]; ok {
+		m = pb
+		delete(r.pushback, sk)
+	} else {
+		if optional {
+			d = 400 * time.Millisecond
+		}
+		m, err = r.peer.NextMsg(r.curPID, !r.curResp, d)
+	}
+	if optional && (err != nil || msgTag(m) != tag) {
+		if err == nil {
+			if r.pushback == nil {
+				r.pushback = map[uint32][]byte{}
+			}
+			r.pushback[sk] = m
+		}
+		r.logf("peer: optional library message tag %d not sent", tag)
+		return true
+	}
 	if err != nil {
 		r.logf("peer: expected library message tag %d: %v", tag, err)
 		return false
@@ -786,10 +837,9 @@ func runCaseIgnoring(scn *scenario, cs caseSpec, bound time.Duration, ignore map
 					_ = r.peer.SendBytes(reply[len(reply)-1:])
 					r.peer.Close()
 				case "refuse":
-					// MsgRefuse, VersionMismatch: a failed operation, then (later) the disconnect
+					// MsgRefuse, VersionMismatch: a failed operation
+					// (the peer stays connected: the library has to clean up on its own)
 					_ = r.peer.SendMsg(0, true, xcbor.A(xcbor.U(2), xcbor.A(xcbor.U(0), xcbor.A(xcbor.U(1)))).Encode())
-					hsLinger()
-					r.peer.Close()
 				}
 				r.logf("FAULT handshake: %s", hsVariant)
 			}
@@ -955,6 +1005,7 @@ func runCaseIgnoring(scn *scenario, cs caseSpec, bound time.Duration, ignore map
 	sleep := 200 * time.Microsecond
 	symptom := ""
 	var needClose []string
+	needCloseDump := ""
 	for {
 		el := time.Since(endAt)
 		if !closeCalled && (r.callsDone() || el >= bound*6/10) {
@@ -966,6 +1017,8 @@ func runCaseIgnoring(scn *scenario, cs caseSpec, bound time.Duration, ignore map
 			if !r.callsDone() {
 				out.NeededClose = true
 				needClose = append([]string(nil), r.pendingNames()...)
+				lk, cl := libraryGoroutines(base, ignore)
+				needCloseDump = dumpOf(append(cl, lk...), 14)
 				r.logf("calls still pending %v after the connection ended: %v", el, needClose)
 			}
 			callClose()
@@ -1069,6 +1122,9 @@ func runCaseIgnoring(scn *scenario, cs caseSpec, bound time.Duration, ignore map
 			out.What += "; " + strings.Join(extra, "; ")
 		}
 		out.Dump = dumpOf(append(append([]gor(nil), callers...), leaks...), 14)
+		if strings.HasPrefix(out.Symptom, "call-needs-close") {
+			out.Dump = needCloseDump // taken while the calls were still blocked
+		}
 		out.Keys = keysOf(out.Symptom)
 		if out.Symptom == "harness-goroutine-stuck" {
 			out.Keys = []string{"harness:goroutine-stuck"}
@@ -1231,7 +1287,7 @@ func (r *runner) variantName(pos position) string {
 		}
 		return v
 	case fFlood:
-		if mod(r.cs.Variant, 2) == 1 && r.scn.StopCall != nil {
+		if floodWithStop && mod(r.cs.Variant, 2) == 1 && r.scn.StopCall != nil {
 			return "stop-in-progress"
 		}
 	}
@@ -1307,7 +1363,7 @@ func variantCount(scn *scenario, fk faultKind, p int) int {
 		}
 		return len(hsNames)
 	case fFlood:
-		if scn.StopCall != nil {
+		if scn.StopCall != nil && floodWithStop {
 			return 2
 		}
 	}
@@ -1330,6 +1386,9 @@ func applicable(scn *scenario, fk faultKind, p int) bool {
 		return p >= 0 && !end && len(scn.Script[scn.sends[p]].Send.Data) >= 2
 	case fFlood:
 		idle, busy := scn.floodLimits()
+		if !floodWithStop && scn.callsStop() {
+			return false
+		}
 		return len(scn.Flood) > 0 && p >= 0 && idle > 0 && busy > 0
 	}
 	return false
@@ -1480,7 +1539,7 @@ func (r *runner) script(pos position, out *outcome) (variant string, peerClosed 
 				}
 			}
 			r.logf("flood: %d bytes still unread in the pipe", last)
-			if mod(cs.Variant, 2) == 1 && s.StopCall != nil && r.conn != nil {
+			if floodWithStop && mod(cs.Variant, 2) == 1 && s.StopCall != nil && r.conn != nil {
 				// back-pressure and a Stop() in progress when the connection ends
 				r.extraCall(*s.StopCall, r.conn)
 				time.Sleep(2 * time.Millisecond)
@@ -1582,7 +1641,7 @@ func (r *runner) script(pos position, out *outcome) (variant string, peerClosed 
 				// request; the peer does not wait long for one
 				wait = 150*time.Millisecond + time.Duration(cs.LingerUs)*time.Microsecond
 			}
-			if !r.await(e.Recv, wait) {
+			if !r.awaitOpt(e.Recv, wait, e.Optional) {
 				if !out.Injected {
 					out.Desync = true
 				}
